@@ -11,7 +11,7 @@ from oracles import put as OP
 
 ID = 'C01'
 LEVEL = 'exploration'
-BUDGET = {'quick': 4000, 'thorough': 300000}
+BUDGET = {'quick': 12000, 'thorough': 300000}
 WALL = {'quick': 45, 'thorough': 1500}
 RULE = ('one simulated trash-put per case over a generated world (entry kind x argument spelling x '
         'options x volume/trash-dir layout); a case is non-trivial when at least one argument names an '
